@@ -320,7 +320,20 @@ def discharge(vc, axioms, timeout_ms=10000, use_cvc5=True, also_cvc5=False):
                 r = z3.sat if res == 'sat' else z3.unsat
                 vc.backend = 'cvc5'
                 vc.reason = ''
-    elif also_cvc5:
+    if r == z3.unknown and vc.kind == 'obligation' and z3.is_false(z3.simplify(vc.goal)):
+        # a "this point must not be reached" obligation: refuting it needs a model of the whole path, which the
+        # solvers rarely produce under quantified hypotheses. Reachability is then decided on the quantifier-free
+        # part of the hypotheses (as for covers); the reason is recorded with the verdict.
+        qf = z3.Solver()
+        qf.set('timeout', timeout_ms)
+        for h in list(axioms) + list(vc.hyps):
+            if not has_quantifier(h):
+                qf.add(h)
+        if qf.check() == z3.sat:
+            r = z3.sat
+            s = qf      # the witness is a model of the quantifier-free part
+            vc.reason = 'reached: decided on the quantifier-free part of the path condition (quantified hypotheses left out)'
+    if r != z3.unknown and also_cvc5 and not vc.reason.startswith('reached:') and vc.backend.startswith('z3'):
         smt2 = '(set-logic ALL)\n' + s.to_smt2()
         res, out = _cvc5_check(smt2, timeout_ms)
         if res in ('sat', 'unsat') and res != str(r):
